@@ -95,7 +95,14 @@ class SymH:
         return f.truncated(nbytes)
 
     def filesize(self, f):
-        return len(f.getvalue())
+        return len(f.text) if f.text is not None else len(f.getvalue())
+
+    def text_of(self, f):
+        return f.text
+
+    def text_number(self, tok):
+        from . import vhelpers
+        return vhelpers._vfloat(tok)
 
     def frac(self, a, b=1):
         return Fraction(a, b)    # always a Fraction: int/int in harness code must never become a float
